@@ -126,6 +126,37 @@ def check(tier, seed, replay=None):
                     chk.violation({'engine': 'rest', 'what': 'files outside the data folder were created, modified or deleted through collection names: %s %s' % (sorted(changed)[:5], escaped[:1]),
                                    'signature': 'rest:C19:outside'})
                     nviol += 1
+                # ---- a data folder that was copied elsewhere: the files carry the path they were created under; every
+                # operation of the server started on the copy must stay inside the copy
+                if nviol == 0:
+                    import shutil
+                    for nm in ('moved1', 'moved2'):
+                        srv.request('POST', '/api/v1/collections', {'name': nm, 'distance_function': 'euclidean', 'vector_size': 2, 'quantization': 64})
+                        srv.request('POST', '/api/v1/collections/%s/records' % nm, [{'id': 1, 'vector': [1.0, 2.0], 'metadata': {'k': 'v'}}])
+                    srv.stop(kill=False)
+                    old = srv.data
+                    srv.data = os.path.join(srv.root, 'outer', 'copy_of_data')
+                    shutil.copytree(old, srv.data)
+                    if srv.start():
+                        before2 = srv.tree()          # the old folder is now outside the configured one
+                        for method, path, body in (('POST', '/api/v1/collections/moved1/records', [{'id': 2, 'vector': [3.0, 4.0], 'metadata': {'k': 'x'}}]),
+                                                   ('PUT', '/api/v1/collections/moved1/records/1/metadata', {'metadata': {'k': 'w'}}),
+                                                   ('DELETE', '/api/v1/collections/moved1/records/1', None),
+                                                   ('DELETE', '/api/v1/collections/moved1', None),
+                                                   ('DELETE', '/api/v1/collections/moved2', None)):
+                            srv.request(method, path, body)
+                            stats['server_requests'] += 1
+                        after2 = srv.tree()
+                        changed2 = sorted(k for k in set(before2) | set(after2) if before2.get(k) != after2.get(k))
+                        left = [f for f in ('moved1.dat', 'moved2.dat') if os.path.exists(os.path.join(srv.data, f))]
+                        stats['moved_folder_requests'] = 5
+                        if changed2:
+                            chk.violation({'engine': 'rest', 'what': 'a server started on a copy of a data folder changed files outside its own folder (the path recorded in the file was used): %s' % changed2[:4],
+                                           'signature': 'rest:C19:moved-folder'})
+                            nviol += 1
+                        elif left:
+                            chk.violation({'engine': 'rest', 'what': 'dropping a collection of a copied data folder left its file in the data folder: %s' % left, 'signature': 'rest:C19:moved-folder-left'})
+                            nviol += 1
         finally:
             srv.cleanup()
     if nviol == 0 and replay is None:
@@ -135,7 +166,7 @@ def check(tier, seed, replay=None):
         elif broken:
             chk.violation({'engine': 'proof', 'unproved': broken, 'what': 'a proof obligation no longer checks; no failing input found'}, tag='proof', no_input=True)
     chk.cov.update({'programs': len(cases), 'evaluations': len(cases) + stats['server_requests'], 'distinct_nontrivial': len(set(cases)),
-                    'rule': 'collection names with separators, .., absolute paths, empty, dots, NUL, percent-encoding, long, UTF-8, crossed with absolute / relative / dotted / unclean data folders; on the real server every hostile name is used in a create request and, as a URL path segment (raw, percent-encoded once and twice), in insert, ids, info, record get/update/delete, search and drop requests, with sentinel .dat files placed around the data folder',
+                    'rule': 'collection names with separators, .., absolute paths, empty, dots, NUL, percent-encoding, long, UTF-8, crossed with absolute / relative / dotted / unclean data folders; on the real server every hostile name is used in a create request and, as a URL path segment (raw, percent-encoded once and twice), in insert, ids, info, record get/update/delete, search and drop requests, with sentinel .dat files placed around the data folder; then the data folder is copied, the server restarted on the copy, and records and collections are changed and dropped there while the original folder is watched',
                     'disagreements_checked': len(cases), 'samples': [{'folder': a.decode('latin1'), 'name': b.decode('latin1'), 'implementation': l} for (a, b), l in list(zip(cases, g))[:40:13]],
                     'distribution': stats, 'correspondence': 'model and implementation agree' if corr is None else 'DIVERGED', 'proof_obligations_broken': broken})
     chk.assumptions = [NOTE]
